@@ -155,7 +155,7 @@ def gen_undecodable(rng):
 
 def gen_bad(rng):
     """damaged / truncated / junk / near-frame item"""
-    k = rng.randrange(9)
+    k = rng.randrange(11)
     base = bytes.fromhex(gen_frame(rng)[1])
     if k == 0:  # bit flips anywhere, header included
         n = rng.choice((1, 1, 2, 3, 8))
@@ -173,6 +173,17 @@ def gen_bad(rng):
         b = bytearray(base[:-3])
         b[1] |= rng.choice((0x04, 0x08, 0x10, 0x80, 0xFC))
         return ["bad", (bytes(b) + wire.crc24q(bytes(b)).to_bytes(3, "big")).hex(), "resv+crc"]
+    if k == 9:  # reserved bits set so that the 16-bit length is self-consistent (>= 1024 payload bytes), CRC matches
+        bit = rng.choice((0x04, 0x04, 0x08))
+        n = (bit << 8) | rng.choice((0, 1, 5, rng.randrange(0, 60)))
+        body = bytes((0xD3, n >> 8, n & 0xFF)) + wire.rtcm_payload(rng.choice(corpus.UNASSIGNED), rng.getrandbits(64), n)
+        return ["bad", (body + wire.crc24q(body).to_bytes(3, "big")).hex(), "resv16"]
+    if k == 10:  # length field lies: announces n payload bytes, carries k < n, CRC matches the short span
+        p = bytes.fromhex(gen_frame(rng)[1])[3:-3]
+        kk = rng.randrange(max(1, len(p) // 2), len(p) + 1) if len(p) > 2 else len(p)
+        n = min(1023, kk + rng.choice((1, 1, 2, 3, 10, 100)))
+        body = bytes((0xD3, n >> 8, n & 0xFF)) + p[:kk]
+        return ["bad", (body + wire.crc24q(body).to_bytes(3, "big")).hex(), "lenlie:%d" % kk]
     if k == 4:  # sync dense junk
         return ["bad", sync_dense(rng, rng.choice((1, 2, 3, 5, 9, 30, 100))).hex(), "junk"]
     if k == 5:  # CRC off by one bit
@@ -273,6 +284,9 @@ class Stream:
             return self.data[: self.obj.tell()]
         return self.data[: self.link.pos]
 
+    def pos(self) -> int:
+        return self.obj.tell() if self.link is None else self.link.pos
+
     def at_eof(self) -> bool:
         if self.link is None:
             return self.obj.tell() >= len(self.data)
@@ -302,7 +316,12 @@ def drive(reader, stream, mode="iterate", max_none=0, resume_on_raise=True, max_
                 raw, parsed = next(reader)
             else:
                 raw, parsed = reader.read()
-        except StopIteration:
+        except StopIteration as e:
+            if mode != "iterate":  # StopIteration may leave __next__ only
+                events.append(("raise", e))
+                if not resume_on_raise:
+                    break
+                continue
             events.append(("stop",))
             nones += 1
             if nones > max_none or stream.at_eof():
@@ -322,7 +341,7 @@ def drive(reader, stream, mode="iterate", max_none=0, resume_on_raise=True, max_
                 break
             continue
         nones = 0
-        events.append(("frame", raw, parsed))
+        events.append(("frame", raw, parsed, stream.pos()))
     return events
 
 
@@ -377,3 +396,119 @@ def damage_detectable(rng, raw: bytes):
     start = max(lo, min(start, nbits - width))
     pattern = (1 << (width - 1)) | 1 | rng.getrandbits(width)
     return wire.burst(raw, start, pattern, width), "burst%d" % width
+
+
+# ---------------------------------------------------------------------------
+# reach measurement: where (relative to the script) did faults fire?
+# ---------------------------------------------------------------------------
+
+
+def part_of(items, offs, o):
+    """(item kind, part) of wire offset o (= bytes delivered before the call)"""
+    for (s, e), it in zip(offs, items):
+        if s <= o < e:
+            k = it[0]
+            if k in ("frame", "filler", "undec", "bad"):
+                rel = o - s
+                if rel == 0:
+                    return k, "start"
+                if rel < 3:
+                    return k, "hdr"
+                if o >= e - 3:
+                    return k, "crc"
+                return k, "payload"
+            return k, ("start" if o == s else "body")
+    return "end", "eof"
+
+
+def fault_sites(link, items):
+    """set of 'fault@itemkind.part' strings for every fault that fired"""
+    sites = set()
+    if link is None:
+        return sites
+    offs = offsets_of(items)
+    p = 0
+    for op, want, kind, n in link.log:
+        if kind == "d":
+            if op == "read" and 0 < n < want and p + want <= link.end:
+                ik, part = part_of(items, offs, p + n)
+                sites.add(f"short_read@{ik}.{part}")
+            elif op == "recv" and n < want:
+                ik, part = part_of(items, offs, p + n)
+                if part not in ("start", "eof"):
+                    sites.add(f"recv_split@{ik}.{part}")
+            p += n
+        elif kind == "eof":
+            continue
+        else:
+            name = {"t": "timeout", "c": "close"}.get(kind, "oserror")
+            ik, part = part_of(items, offs, p)
+            sites.add(f"{name}@{ik}.{part}")
+    return sites
+
+
+# ---------------------------------------------------------------------------
+# fault plans for reader-level runs (C01, C04)
+# ---------------------------------------------------------------------------
+
+SOCK_FAULTS = [["t"], ["t"], ["e", "ConnectionResetError"], ["e", "OSError"], ["e", "InterruptedError"], ["e", "BlockingIOError"], ["e", "BrokenPipeError"]]
+SERIAL_FAULTS = [["t"]]
+
+
+def gen_fault_sched(rng, kind, items, fault_free=False):
+    """aimed + background fault plan for one run (materialised, JSON-able)"""
+    sched = {"seed": rng.getrandbits(48), "seg": rng.choice(("full", "full", "byte", "small", "random", "mixed")), "p_fault": 0.0, "aims": []}
+    if fault_free or kind in ("bytesio", "buffered"):
+        return sched
+    offs = offsets_of(items)
+    framelike = [i for i, it in enumerate(items) if it[0] in ("frame", "filler", "undec", "bad")]
+    naims = rng.choice((0, 1, 1, 2, 3, 5))
+    aims = []
+    for _ in range(naims):
+        if framelike and rng.random() < 0.8:
+            s, e = offs[rng.choice(framelike)]
+            part = rng.randrange(6)
+            if part == 0:
+                o = s + rng.choice((1, 2))  # inside header
+            elif part == 1:
+                o = s + 3  # between length and payload
+            elif part == 2:
+                o = rng.randrange(s + 3, max(s + 4, e - 3))  # inside payload
+            elif part == 3:
+                o = max(s, e - 3)  # between payload and crc
+            elif part == 4:
+                o = max(s, e - rng.choice((1, 2)))  # inside crc
+            else:
+                o = e  # exactly at the frame boundary
+            o = min(o, e)
+        elif offs:
+            s, e = offs[rng.randrange(len(offs))]
+            o = rng.randrange(s, e + 1)
+        else:
+            o = 0
+        if kind == "serial":
+            f = rng.choice((["d", 0], ["d", 0], ["t"], ["c"] if rng.random() < 0.2 else ["t"]))
+        else:
+            f = rng.choice(SOCK_FAULTS + [["d", 0], ["c"]])
+        aims.append([o, f])
+        if f[0] != "c" and rng.random() < 0.25:
+            aims.append([o, rng.choice(SERIAL_FAULTS if kind == "serial" else SOCK_FAULTS)])
+    for (s, e), it in zip(offs, items):
+        if it[2].startswith("lenlie:") and rng.random() < 0.8:
+            # the read of the announced payload comes back short exactly where the lie ends
+            aims.append([s + 3 + int(it[2][7:]), ["d", 0]])
+    aims.sort(key=lambda a: a[0])
+    sched["aims"] = aims
+    sched["p_fault"] = rng.choice((0.0, 0.0, 0.0, 0.005, 0.02, 0.08))
+    return sched
+
+
+def make_decider(scn, kind):
+    from . import rng as R
+    from .transports import RngDecider, ScriptDecider
+
+    if "decisions" in scn:
+        return ScriptDecider([tuple(d) for d in scn["decisions"]])
+    sch = scn["sched"]
+    faults = SERIAL_FAULTS if kind == "serial" else SOCK_FAULTS
+    return RngDecider(R.random.Random(sch["seed"]), {"seg": sch["seg"], "p_fault": sch.get("p_fault", 0.0), "faults": faults, "aims": sch.get("aims", ())})
